@@ -69,9 +69,9 @@ def run(tier, seed, replay=None):
             kinds[(rec['op'], ev.get('tag') or '', cls)] += 1
             if cls == 'panic':
                 msg = rec['reply'].get('msg', '')
-                frame = next((l.strip() for l in msg.split('\n') if '/repo/' in l and 'zz_verif' not in l), msg.split('\n')[0])
+                frame = next((l.strip() for l in msg.split('\n') if REPO + '/' in l and 'zz_verif' not in l and '/verif/' not in l), msg.split('\n')[0])
                 frame = re.sub(r' \+0x[0-9a-f]+', '', frame)
-                frame = re.sub(r':\d+$', '', frame.replace('/repo/', ''))
+                frame = re.sub(r':\d+$', '', frame.replace(REPO + '/', ''))
                 viol(sc, F('C14', 'handlers-never-panic', 'panic:%s:%s' % (rec['op'], frame), '%s panics: %s' % (rec['op'], msg.split('\n')[0][:200]), rec['seq']))
             if ev.get('tag') == 'probe' and cls != 'ok':
                 viol(sc, F('C14', 'refused-request-harmless', 'probe-refused:' + rec['op'], 'valid %s after the fuzzed history is answered %s: %s' % (rec['op'], cls, rec['reply'].get('msg', '')[:200]), rec['seq']))
